@@ -67,7 +67,7 @@ class ListProperty(PropertyProtocol):
                 schemas,
             )
 
-        items = data.prefixItems or []
+        items = list(data.prefixItems or [])
         if data.items:
             items.append(data.items)
 
